@@ -50,6 +50,7 @@ class Ctx:
     self.trusted: typing.List[str] = []
     self.undecided: typing.List[str] = []
     self.units: typing.Set[str] = set()
+    self.not_analysed: typing.List[typing.Tuple[str, str]] = []   # (step, reason): constructs whose shape no rule recognised
 
   # -- recording ------------------------------------------------------------------------
   def _rule(self, rule):
@@ -78,8 +79,17 @@ class Ctx:
   def floor(self, rule: str, what: str, count: int, minimum: int):
     """A rule that matches fewer instances than confirmed by hand must not pass silently."""
     if count < minimum:
-      raise AnalysisError(f"{rule}: instance floor not met for {what}: found {count}, need >= {minimum}")
+      # fewer instances than confirmed by hand: the construct changed shape (or vanished); nothing is concluded from it
+      self.undecide(rule, f"instance floor not met for {what}: found {count}, need >= {minimum}")
     self._rule(rule).setdefault("floors", []).append({"what": what, "found": count, "floor": minimum})  # type: ignore
+
+  def undecide(self, step: str, reason: str):
+    """A construct that no rule recognises (renamed anchor, refactored idiom, instance floor).  It is
+    reported and counted, and no verdict is derived from it: an unrecognised shape is neither a
+    violation nor evidence that the property holds."""
+    item = (str(step)[:120], str(reason)[:400])
+    if item not in self.not_analysed:
+      self.not_analysed.append(item)
 
   def unit(self, module):
     self.units.add(f"{module.rel}@{module.digest}")
@@ -141,6 +151,8 @@ def finish(ctx: Ctx, explanation: str, rule_text: str) -> int:
       print(f"  rule {rule}: {st['instances']} instances, {st['violations']} violated" + (f" [{fl}]" if fl else ""))
     for n in ctx.notes:
       print(f"  note: {n}")
+  for step, reason in ctx.not_analysed:
+    print(f"UNDECIDED property={ctx.prop} step={step}: {reason}")
 
   for ob, k in known_hits:
     print(f"KNOWN-FINDING: property={ctx.prop} rule={ob.rule} construct={ob.key} at {ob.where}: {k.get('what', ob.detail)}")
@@ -183,6 +195,7 @@ def finish(ctx: Ctx, explanation: str, rule_text: str) -> int:
     "known_findings_printed": [ob.key for ob, _ in known_hits],
     "clauses_not_decided": ctx.undecided,
     "notes": ctx.notes,
+    "not_analysed": [{"step": a, "reason": b} for a, b in ctx.not_analysed],
     "exhaustive": False,
   }
   cov.update(ctx.extra)
@@ -207,5 +220,6 @@ def finish(ctx: Ctx, explanation: str, rule_text: str) -> int:
     return 1
   if not ctx.quiet:
     print(f"OK property={ctx.prop}: {n_ok}/{n_inst} rule instances satisfied"
-          + (f", {len(known_hits)} known finding(s)" if known_hits else "") + f" in {wall:.2f}s")
+          + (f", {len(known_hits)} known finding(s)" if known_hits else "")
+          + (f", {len(ctx.not_analysed)} construct(s) not analysed (UNDECIDED above)" if ctx.not_analysed else "") + f" in {wall:.2f}s")
   return 0
